@@ -17,7 +17,8 @@ import (
 //	                         state = "freq:k,k;freq:k" (forward walk; link inconsistencies appended), latch prints "L{k=v,…}" first
 //	c19.ins <cap> <name:val,…>        -> resulting slice name:val,… | per-insert results (t/f)
 //	c19.evict <now> <name:val:lut,…>  -> report after evictStale
-//	c19.col <cap> <script>            tokens: a<counter>.<key>x<times>, c (collect), e (evictStale), t<m> (clock = m), T<m1>.<m2> (m1 once, then m2)
+//	c19.col <cap> <script>            tokens: a<counter>.<key>x<times>, c (collect), e (evictStale), t<m> (clock = m), T<m1>.<m2> (m1 once, then m2),
+//	                                  s (a HOTKEY reader takes the report now; what it would print is appended after every later c/e)
 //	                                  -> report after every c/e, '|'-separated, then "#" + accessed key names
 type c19 struct{}
 
@@ -191,6 +192,19 @@ func (c19) Exec(op string) string {
 			})
 			accessed := map[string]bool{}
 			var outs []string
+			var snaps [][]hotkey.HotKey
+			readSnaps := func() []string {
+				// what a reader holding an earlier report prints now (handleHotKey reads the counters after HotKeys() returned)
+				var rs []string
+				for _, sn := range snaps {
+					var hs []hotkey.VerifHot
+					for _, k := range sn {
+						hs = append(hs, hotkey.VerifHot{Name: k.Name, Val: k.Counter.Value(), Lut: k.Counter.LastUpdateTimeInMinute()})
+					}
+					rs = append(rs, fmtHots(hs, false))
+				}
+				return rs
+			}
 			for _, tok := range f[2:] {
 				switch {
 				case strings.HasPrefix(tok, "a"):
@@ -212,14 +226,19 @@ func (c19) Exec(op string) string {
 						c.Incr(key)
 					}
 					accessed[key] = true
+				case tok == "s":
+					// a HOTKEY reader takes the report now (public API) and prints it later
+					snaps = append(snaps, col.HotKeys())
 				case tok == "c":
 					calls = 0
 					hotkey.VerifCollect(col)
 					outs = append(outs, fmtHots(hotkey.VerifKeys(col), false))
+					outs = append(outs, readSnaps()...)
 				case tok == "e":
 					calls = 1
 					hotkey.VerifEvictStale(col)
 					outs = append(outs, fmtHots(hotkey.VerifKeys(col), false))
+					outs = append(outs, readSnaps()...)
 				case strings.HasPrefix(tok, "t"):
 					m, _ := strconv.ParseInt(tok[1:], 10, 64)
 					first, rest = m, m
@@ -360,6 +379,13 @@ func (c19) Gen(r *hx.Run) {
 			toks = append(toks, "c")
 			if rng.Intn(2) == 0 {
 				toks = append(toks, fmt.Sprintf("t%d", minute), "e")
+			}
+		}
+		if rng.Intn(2) == 0 {
+			// HOTKEY readers that took the report earlier and print it after later collections
+			for k := 0; k < 2; k++ {
+				pos := 1 + rng.Intn(len(toks))
+				toks = append(toks[:pos], append([]string{"s"}, toks[pos:]...)...)
 			}
 		}
 		r.Do(fmt.Sprintf("c19.col %d %s", capa, strings.Join(toks, " ")), true, "col")
